@@ -52,6 +52,21 @@ NA = {
 
 # id -> (category, text, note, technique, design_ref)
 CLAIMED = {
+ "C31": ("fault_enumeration",
+         "The instruction clock hooked into both dispatch loops raises the real INTERRUPT flag at instruction n and forces the poll there; the crate's own check_for_interrupt/throw/unwind code runs. Thorough enumerates every n (up to 25000) of every workload at its small size and of the textual goals, then samples the larger sizes; quick is a seeded sample. Oracle: no panic/hang, the query ends with error('$interrupt_thrown', _) (caught by the goal's catch/3 or escaping), never with its normal answer or another ball, and the 20-query follow-up battery then gives fresh-machine answers. Library catch-all sites that swallow the ball are identified by the predicate that called the catching catch/3 (hook in '$get_ball').",
+         "Trusts: forcing the poll at a chosen boundary models production's every-256-instructions poll with history-dependent phase; the workload library (20 goals x 3 sizes + 13 textual goals) as 'a set of workloads'; follow-up battery as 'later goals compute correct results'. The context argument of the ball is not compared (library predicates re-throw with their own context).",
+         "deterministic simulation with fault injection: interrupt at the n-th dispatched instruction, enumerated/sampled, fresh-machine differential follow-up",
+         "DESIGN.md §3 C31"),
+ "C18": ("exploration",
+         "The real CharReader runs over a simulated byte source whose partition of the input into reads is drawn from the seed (biased to cut inside multi-byte sequences and around the 8 KiB refill size), with peek/read/put-back/raw-read/consume operations interleaved. Every outcome is compared with a reference decoder built on std's UTF-8 validation and with the same operations under the trivial one-chunk schedule; panics are violations. Seeded sampling of an open space (bytes x partitions x operation orders).",
+         "Trusts std::str::from_utf8 as the UTF-8 reference and the SimCharReader wrapper (feature-gated re-export). The end-to-end channel layer of DESIGN.md is exercised through C19's channel streams, not here.",
+         "deterministic simulation: seeded read-partition schedules over a simulated byte source, reference decoder + one-chunk differential",
+         "DESIGN.md §3 C18"),
+ "C33": ("fault_enumeration",
+         "Seeded sequences of the real Heap operations on a managed heap whose allocation carries a canary region past the logical capacity; under exact-fit growth the capacity equals what the operation reserved, so any write past the reservation hits the canary at every fill level; the k-th growth attempt is made to fail (one-shot and persistent). Plus machine-level runs of the workload library with all heaps guarded. Oracle: canary intact, byte_len <= byte_cap, bytes below the old length unchanged, read-back of what was written.",
+         "Trusts the hook's managed allocation (feature-gated, in heap.rs) to model the production allocator; overflows larger than the guard region (256 B / 4 KiB) that skip it entirely are not seen.",
+         "deterministic simulation with fault injection: exact-fit growth policy + canary guard + k-th growth failure over seeded heap-operation sequences",
+         "DESIGN.md §3 C33"),
  "C28": ("exploration",
          "Seeded histories of run_query calls on one Machine (each consumed for a random prefix, then dropped; optionally an interrupt injected inside one next()) compared item by item with the answer stream of a fresh machine image, a log model for side effects, and findall/3 inside Prolog. Sampling, not enumeration: histories are an open space.",
          "Trusts the fork-of-pristine-image notion of 'fresh Machine', the 52-query pool as representative, and the canonical text form of Term.",
